@@ -186,7 +186,10 @@ def rename_variant(files, index):
     target = names[(index * 7) % len(names)]
     pattern = re.compile(r'\b' + re.escape(target) + r'\b(?![-\w])')
 
-    return [[name, pattern.sub(target + 'v' + str(index), text)]
+    # ... and one member of the hand-written probe type, so that every
+    # variant is guaranteed to differ on the probe set of every codec.
+    return [[name, pattern.sub(target + 'v' + str(index), text).replace(
+        'x9005 INTEGER', 'x9005v{} INTEGER'.format(index))]
             for name, text in files]
 
 
@@ -243,6 +246,21 @@ class C17(Engine):
         # thorough tier.
         stride = 16 if tier == 'quick' else 1
 
+        kill_only = []
+
+        if tier == 'quick':
+            # A second scenario with KILL crash points only: the one with
+            # the richest history (populate, edit, crash, verify, edit
+            # back, verify), unless it is the main one already.
+            kill_only = [4 if (seed % 6) != 4 else 1]
+
+        for scenario in kill_only:
+            for start in range(1, 400, span):
+                items.append({'kind': 'sweep', 'scenario': scenario,
+                              'mode': 'KILL', 'start': start,
+                              'end': start + span, 'stride': 1,
+                              'seed': mix(seed, 'sweep', scenario)})
+
         for scenario in scenarios:
             for mode in ('KILL', 'TORN'):
                 for start in range(1, 400, span):
@@ -282,12 +300,18 @@ class C17(Engine):
             mix(run_seed, 'size')).choice([2, 3, 4]),
             'max_members': 4, 'max_depth': 2}
         rng = random.Random(mix(run_seed, 'features'))
-        features = sorted(set(
+        features = set(
             [f for f in specgen.ALL_FEATURES if rng.random() < 0.5]
-            + ['seq', 'int', 'enum', 'default', 'optional']) - {'imports'})
+            + ['seq', 'int', 'enum', 'default', 'optional']) - {'imports'}
+
+        if rng.random() < 0.5 and not large:
+            features.add('imports')   # several modules = several files
+
         spec, text, parsed = world.gen_world(run_seed, 'ber',
-                                             features=features, knobs=knobs)
-        module = spec['modules'][-1]
+                                             features=sorted(features),
+                                             knobs=knobs)
+        # The option-sensitive types go into the FIRST file.
+        module = spec['modules'][0]
         module['assignments'].extend(copy.deepcopy(OPTION_TYPES))
         files = [[m['name'] + '.asn', specgen.render_module(m)]
                  for m in spec['modules']]
@@ -312,7 +336,38 @@ class C17(Engine):
         codecs = ops_rng.sample(CODECS, ops_rng.choice([1, 2, 3]))
         length = ops_rng.choice([3, 4, 6, 8])
 
+        last_args = []
+
         def compile_args():
+            if last_args and ops_rng.random() < 0.4:
+                # The previous call again, with exactly one option toggled.
+                args = dict(last_args[-1])
+                which = ops_rng.choice(['numeric_enums', 'adbc', 'encoding',
+                                        'codec'])
+
+                if which == 'numeric_enums':
+                    args['numeric_enums'] = not args['numeric_enums']
+                elif which == 'adbc':
+                    args['adbc'] = None if args['adbc'] \
+                        else adbc_for(module_name)
+                elif which == 'encoding':
+                    args['encoding'] = 'latin-1' \
+                        if args['encoding'] == 'utf-8' else 'utf-8'
+                else:
+                    args['codec'] = ops_rng.choice(codecs)
+
+                args['proc'] = 'inproc' if ops_rng.random() < 0.7 \
+                    else 'child'
+                last_args.append(args)
+
+                return dict(args)
+
+            args = fresh_args()
+            last_args.append(args)
+
+            return dict(args)
+
+        def fresh_args():
             return {'proc': 'inproc' if ops_rng.random() < 0.7 else 'child',
                     'stub': ops_rng.random() < 0.8,
                     'codec': ops_rng.choice(codecs),
@@ -447,22 +502,31 @@ class C17(Engine):
         prefix, rest = base['ops'][:index], base['ops'][index:]
         holder = fsfault.scratch_root('vsim-c17-snap-')
         snapshot = os.path.join(holder, 'snapshot')
+        root = os.path.join(holder, 'root')
+        os.makedirs(root)
         memo = {}
 
         try:
             # Run the prefix once, keep the directory it leaves, and count
             # the crash points of the operation under test.
-            counting = copy.deepcopy(base)
-            counting['ops'] = copy.deepcopy(prefix) + [
-                {'op': 'snapshot', 'to': snapshot},
-                dict(copy.deepcopy(rest[0]),
-                     fault={'kind': 'libc', 'mode': 'COUNT'})]
-            measured = self.execute(counting, measure=True, memo=memo)
-            calls, ticks = measured.measure
-            total = ticks if item['mode'] == 'tick' else calls
+            prepare = copy.deepcopy(base)
+            prepare['ops'] = copy.deepcopy(prefix) + [
+                {'op': 'snapshot', 'to': snapshot}]
+            self.execute(prepare, memo=memo, root=root)
             variant = ([op['variant'] for op in prefix
                         if op['op'] == 'edit'] or [0])[-1]
             kills = len([op for op in prefix if op['op'] == 'compile-crash'])
+            restore = {'op': 'restore', 'from': snapshot, 'variant': variant,
+                       'kills': kills, 'prefix': len(prefix)}
+            # Count in exactly the state every crash point starts from.
+            counting = dict(base, ops=[
+                dict(restore),
+                dict(copy.deepcopy(rest[0]),
+                     fault={'kind': 'libc', 'mode': 'COUNT'})])
+            measured = self.execute(counting, measure=True, memo=memo,
+                                    root=root)
+            calls, ticks = measured.measure
+            total = ticks if item['mode'] == 'tick' else calls
 
             for n in range(item['start'], min(item['end'], total + 1),
                            item.get('stride', 1)):
@@ -474,15 +538,16 @@ class C17(Engine):
 
                 crash = dict(copy.deepcopy(rest[0]), fault=fault,
                              stub=(n % 8 != 0))
-                fast = dict(base, ops=[
-                    {'op': 'restore', 'from': snapshot, 'variant': variant,
-                     'kills': kills, 'prefix': len(prefix)},
-                    crash] + copy.deepcopy(rest[1:]))
-                sub = self.execute(fast, memo=memo)
+                fast = dict(base, ops=[dict(restore), crash]
+                            + copy.deepcopy(rest[1:]))
+                sub = self.execute(fast, memo=memo, root=root)
 
                 if sub.violations:
-                    # Report through the self-contained history.
-                    full = dict(base, ops=copy.deepcopy(prefix) + [crash]
+                    # Report through the self-contained history ('recycle'
+                    # = the directory copied away and back, which is what
+                    # the snapshot/restore of the fast path amounts to).
+                    full = dict(base, ops=copy.deepcopy(prefix)
+                                + [{'op': 'recycle'}, crash]
                                 + copy.deepcopy(rest[1:]))
                     again = self.execute(full)
 
@@ -510,16 +575,27 @@ class C17(Engine):
 
     # -- execution ----------------------------------------------------------------
 
-    def execute(self, case, measure=False, memo=None):
+    def execute(self, case, measure=False, memo=None, root=None):
+        """root: run in this (emptied) directory instead of a fresh one -
+        used by the sweeps, so that the file paths stay the same from the
+        snapshot prefix to every crash point."""
+
         result = Result()
-        root = fsfault.scratch_root('vsim-c17-')
         result.measure = (0, 0)
+        own = root is None
+
+        if own:
+            root = fsfault.scratch_root('vsim-c17-')
+        else:
+            for name in os.listdir(root):
+                shutil.rmtree(os.path.join(root, name), ignore_errors=True)
 
         try:
             self.run_history(case, root, result, measure,
                              {} if memo is None else memo)
         finally:
-            shutil.rmtree(root, ignore_errors=True)
+            if own:
+                shutil.rmtree(root, ignore_errors=True)
 
         return result
 
@@ -600,6 +676,20 @@ class C17(Engine):
             if name == 'edit':
                 write_variant(op['variant'] % len(case['variants']))
                 history.append(['edit', state['variant']])
+                continue
+
+            if name == 'recycle':
+                # The quiescent cache directory is copied away and back
+                # (backup / restore, moved workspace): same contents, new
+                # files.
+                if os.path.isdir(cache):
+                    side = cache + '.recycle'
+                    shutil.copytree(cache, side)
+                    shutil.rmtree(cache)
+                    shutil.copytree(side, cache)
+                    shutil.rmtree(side)
+
+                history.append(['recycle'])
                 continue
 
             if name == 'snapshot':
@@ -702,6 +792,30 @@ class C17(Engine):
                                            outcome['signal']),
                                        'text': 'compiler process died'}}
                 result.stats['compiler-process-died-of-signal'] += 1
+
+            if outcome['status'] == 'timeout':
+                # Not an error, not a codec: the process had to be killed
+                # by the driver.  Outside what the statement promises when
+                # the directory is damaged or I/O errors are in flight;
+                # a violation otherwise.
+                io_fault = fault is not None and fault.get('mode') in (
+                    'ERR', 'SHORT')
+                result.stats['compiler-process-hung-and-killed'] += 1
+                kills += 1
+                history.append([name, args, fault, 'hung'])
+
+                if not (tainted or io_fault):
+                    report('error-without-fault',
+                           {'after': 'kill' if kills > 1 else 'nothing'},
+                           {'args': args, 'fault': fault,
+                            'got': {'outcome': 'hang',
+                                    'killed_after_s':
+                                    outcome['wall_timeout']}}, index)
+
+                if io_fault:
+                    io_errors_pending = True
+
+                continue
 
             if outcome['status'] == 'killed':
                 kills += 1
